@@ -18,8 +18,14 @@ package req
 import (
 	"bytes"
 	"encoding/binary"
+	"fmt"
 	"hash/crc32"
+	"io"
 	"math/rand"
+	"strconv"
+	"strings"
+	"testing"
+	"time"
 
 	"github.com/andybalholm/brotli"
 	"github.com/imroc/req/v3/internal/verifh"
@@ -155,9 +161,150 @@ func (e *c03EncBody) surplus(r *rand.Rand) []byte {
 	return []byte(verifh.RandBytes(r, 1+r.Intn(12), "X"))
 }
 
+// c03ZstdClass: the known finding "a zstd-decoded body whose source fails with io.ErrUnexpectedEOF within the
+// first four bytes of a zstd frame (offset 0 included) reads as a clean end" (klauspost frameDec.reset).
+const c03ZstdClass = "zstd-cut-at-frame-start"
+
 func (e *c03EncBody) tag() string {
 	if e == nil {
 		return "identity"
 	}
 	return e.enc + "-" + e.how
+}
+
+// TestVerif_C03_h1enc: HTTP/1.1 under EnableAutoDecompress (internal/compress readers around the
+// transfer.go body), Content-Length and chunked framing, encoded body cut at k then EOF / reset.
+func TestVerif_C03_h1enc(t *testing.T) {
+	s := verifh.New(t, "C03", "h1enc",
+		"HTTP/1.1 responses with an ENCODED body (gzip with 1-3 members / deflate from stored blocks with generated member headers and block splits: model-judged, lane c03h1z = Lean framing model ∘ C14 container automaton; br / zstd from the reference encoders: oracle-judged) "+
+			"under Content-Length and chunked framing to a client with EnableAutoDecompress (the transport's own gzip request off, so that internal/compress decodes), cut at k (stratified: head boundary, first body byte, every gzip member boundary, last bytes, random; every k in thorough) then EOF or ECONNRESET, "+
+			"plus over-long variants (a further valid gzip member / junk behind the declared length, peer closes); then a second request. Oracle: success implies the complete plaintext. non-trivial = cut strictly inside the body")
+	r := s.Rand()
+	nMsgs := verifh.N(40, 200)
+	reached := map[string]int{}
+	failures := 0
+	for i := 0; i < nMsgs && failures < 12; i++ {
+		plain := verifh.RandBytes(r, 1+r.Intn(200), "abcdefgh \n")
+		ze := c03PickEnc(r, plain, i%4 == 0)
+		ze.how = "auto"
+		z := ze.wire
+		over := []byte(nil)
+		if i%5 == 4 {
+			over = ze.surplus(r)
+		}
+		var wire bytes.Buffer
+		// zAt[j] = offset in the wire right after the j-th encoded byte
+		zAt := make([]int, 0, len(z)+1)
+		framing := verifh.Pick(r, []string{"len", "chunked"})
+		switch framing {
+		case "len":
+			wire.WriteString("HTTP/1.1 200 OK\r\nContent-Encoding: " + ze.enc + "\r\nContent-Length: " + strconv.Itoa(len(z)) + "\r\n\r\n")
+			for j := range z {
+				zAt = append(zAt, wire.Len()+j+1)
+			}
+			wire.Write(z)
+			wire.Write(over)
+		case "chunked":
+			wire.WriteString("HTTP/1.1 200 OK\r\nContent-Encoding: " + ze.enc + "\r\nTransfer-Encoding: chunked\r\n\r\n")
+			rest := z
+			for len(rest) > 0 {
+				k := 1 + r.Intn(len(rest))
+				wire.WriteString(strconv.FormatInt(int64(k), 16) + "\r\n")
+				for j := 0; j < k; j++ {
+					zAt = append(zAt, wire.Len()+j+1)
+				}
+				wire.Write(rest[:k])
+				wire.WriteString("\r\n")
+				rest = rest[k:]
+			}
+			wire.WriteString("0\r\n\r\n")
+			wire.Write(over)
+		}
+		st := wire.String()
+		he := strings.Index(st, "\r\n\r\n") + 4
+		whole := len(st) - len(over) // the complete message
+		cuts := c03Cuts(r, st, verifh.Thorough() && len(st) < 600, 8)
+		cuts = append(cuts, he, he+1, whole)
+		if framing == "len" {
+			for _, b := range ze.bounds {
+				cuts = append(cuts, he+b)
+			}
+		}
+		for _, k := range cuts {
+			if k < 0 || k > len(st) {
+				continue
+			}
+			end := error(io.EOF)
+			if r.Intn(4) == 0 && k < whole {
+				end = errC03Reset
+			}
+			nw := &c03Net{scripts: [][]c03Step{{{data: []byte(st[:k]), end: end}}, {{data: c03SecondWire}}}, seg: verifh.Pick(r, []int{0, 1, 13})}
+			c := C().SetDial(nw.dial).DisableAutoDecode().SetTimeout(20 * time.Second)
+			ze.prep(c)
+			resp, err := c.R().Get("http://c03.invalid/z")
+			first := "fail"
+			if err == nil && resp != nil && resp.Err == nil {
+				first = "ok body=" + verifh.Hex(string(resp.Bytes()))
+			}
+			second, err2 := c.R().Get("http://c03.invalid/z2")
+			secondOK := err2 == nil && second != nil && second.String() == c03Second
+			nw.closeAll()
+			c.GetTransport().CloseIdleConnections()
+			ok, why, class := true, "", ""
+			zc := 0 // encoded bytes that reached the client
+			for zc < len(zAt) && zAt[zc] <= k {
+				zc++
+			}
+			if first != "fail" {
+				if k < whole && ze.enc != "gzip" && zc == len(z) && first == "ok body="+verifh.Hex(plain) {
+					// deflate / br / zstd stop at their own end-of-stream mark: the ENCODED stream arrived whole, the
+					// decoder never looks at the (cut) framing behind it, the body is the complete plaintext
+					s.Count("encoded-stream-complete-framing-cut")
+				} else if k < whole {
+					ok, why = false, "truncated encoded response reported as success with body "+c04Short(string(resp.Bytes()))
+					if ze.enc == "zstd" && zc <= 3 {
+						class = c03ZstdClass
+					}
+				} else if first != "ok body="+verifh.Hex(plain) {
+					ok, why = false, "decoded body differs from the plaintext"
+				}
+				reached["ok"]++
+			} else {
+				if k >= whole {
+					ok, why = false, "complete response reported as failure"
+				}
+				reached["fail"]++
+			}
+			if !secondOK {
+				ok, why = false, "second request failed"
+			}
+			if !ok && class == "" {
+				failures++
+			}
+			s.Count("framing:" + framing)
+			s.Count("enc:" + ze.enc)
+			reached["enc:"+ze.enc]++
+			if len(over) > 0 && k > whole {
+				reached["overlong"]++
+			}
+			human := fmt.Sprintf("h1enc %s framing=%s len=%d (head %d, message %d, surplus %d) cut k=%d -> %s", ze.enc, framing, len(st), he, whole, len(over), k, c04Short(first))
+			if why != "" {
+				human += " ORACLE: " + why
+			}
+			if !ze.modelled {
+				s.Observe(fmt.Sprintf("h1enc/%d/%s/%d", i, ze.enc, k), ok, class, k > he && k < whole, human, why)
+				continue
+			}
+			s.Case("c03h1z "+ze.enc+" "+verifh.Hex(st)+" "+strconv.Itoa(k), first, ok, "", k > he && k < whole, human)
+		}
+	}
+	s.Finish()
+	if failures >= 12 {
+		return
+	}
+	for _, need := range []string{"ok", "fail", "enc:gzip", "enc:deflate", "enc:br", "enc:zstd", "overlong"} {
+		if reached[need] == 0 {
+			t.Errorf("C03/h1enc never reached %q", need)
+		}
+	}
 }
